@@ -181,6 +181,43 @@ def normalsOutward (coords : List R3) (tris : List Tri) (normOf : Nat → R3) (e
     decide (rdot n g > 0) && decide (rdot n a > 0) && decide (rdot g a > 0) &&
       (!exactParallel || rcross n g == (0, 0, 0))
 
+/-! ### Tetrahedron in exact arithmetic
+
+Its coordinates are irrational, but each axis carries a single radical: `x = qx·√2`, `y = qy`,
+`z = qz·√6` with rational `q`.  Hence dot products are rational (`2·qx·qx' + qy·qy' + 6·qz·qz'`) and
+every determinant `n·(u×v)` is `√12` times the determinant of the `q` vectors, so signs can be
+decided exactly. -/
+
+/-- `(qx, qy, qz)` of the four vertices. -/
+def tetraQ : List R3 := [(0, 1, 0), (2/3, -1/3, 0), (-1/3, -1/3, 1/3), (-1/3, -1/3, -1/3)]
+
+/-- the real number `q·√w` as a `Surd` -/
+def surdOf (w q : Rat) : Surd := { sign := sgn q, sq := q * q * w }
+
+/-- `tetraQ` with the axis radicals √2, 1, √6 is exactly the coordinate table `tetraCoords`. -/
+def tetraQRepresents : Bool :=
+  tetraCoords == tetraQ.map fun q => (surdOf 2 q.1, surdOf 1 q.2.1, surdOf 6 q.2.2)
+
+/-- true dot product of two vectors given by their `q` -/
+def wdot (a b : R3) : Rat := 2 * a.1 * b.1 + a.2.1 * b.2.1 + 6 * a.2.2 * b.2.2
+
+/-- For every face `(a,b,c)` of `tetraFaces` with the table normal `n = −coords[opposite]`
+(`[3,1,2,0]`, platonic.rs:104): `n·((b−a)×(c−a)) > 0` (sign of the `q` determinant), `n·a > 0` and
+`((b−a)×(c−a))·a > 0` (outward), and `n` is parallel to the geometric normal
+(`q`-cross `(Gx, Gy, Gz)` corresponds to the real vector `(√6·Gx, √12·Gy, √2·Gz)`, parallel to
+`(√2·nx, ny, √6·nz)` iff `(Gx/2, Gy, Gz/6) ∥ (nx, ny, nz)`). -/
+def tetraNormalsOutward : Bool :=
+  (List.range 4).all fun k =>
+    let t := tetraFaces.getD k default
+    let a := tetraQ.getD t.1 default
+    let b := tetraQ.getD t.2.1 default
+    let c := tetraQ.getD t.2.2 default
+    let o := tetraQ.getD (([3, 1, 2, 0] : List Nat).getD k 0) default
+    let n : R3 := (-o.1, -o.2.1, -o.2.2)
+    let g := rcross (rsub b a) (rsub c a)
+    decide (rdot n g > 0) && decide (wdot n a > 0) && decide (rdot g a > 0) &&
+      rcross n (g.1 / 2, g.2.1, g.2.2 / 6) == (0, 0, 0)
+
 /-- Every index used by the tables above is inside its table, i.e. no `getD` default is ever
 taken (the Rust code would panic on an out-of-range constant index). -/
 def tablesInRange : Bool :=
